@@ -61,6 +61,9 @@ func c37(r *core.Run) {
 	}
 	r.Floor("C37.X1", "peer-controlled SSA values found", ntv, 100)
 	c37ErrNilDeref(r, t, funcs)
+	c37PersistedVector(r)
+	c37NilMessage(r)
+	c37JoinerRefs(r)
 
 	type finding struct {
 		fn   *ssa.Function
